@@ -429,6 +429,8 @@ class ExecSim(object):
         self.cancel_of  = {}     # cancel thread name -> uids
         self.started_clean = set()   # uids whose start-up report was handled before any time passed
         self.must_cancel = {}    # uid -> phase at which the request was completely handled
+        self.limit_from = {}     # uid -> [virtual time no earlier than the start of its current limit, limit]
+        self.overdue  = []       # (uid, seconds over its limit) still running when everything had settled
         self.ticked   = 0.0
         self._log_pos = 0
         self.ev = collections.defaultdict(lambda: {'executing': 0, 'failed': 0, 'pushed': 0,
@@ -437,6 +439,17 @@ class ExecSim(object):
         self.coincide = 0        # NT: >=2 activities enabled inside a task's critical window
         self.steps = 0
         self._n = 0
+        # learn when a task's limit starts to run (recorded after the call: never too early)
+        real_handle_timeout = comp.handle_timeout
+
+        def handle_timeout(task):
+            real_handle_timeout(task)
+            td = task['description']
+            lim = td.get('startup_timeout') or td.get('timeout')
+            if lim:
+                self.limit_from[task['uid']] = [self.baton.now, float(lim)]
+        comp.handle_timeout = handle_timeout
+
         # wrap work() to learn which tasks were accepted
         real_work = comp.work
 
@@ -610,6 +623,13 @@ class ExecSim(object):
             self._resume(name)
         if ct.done and ct.exc is None and self.ticked == 0:
             self.started_clean.add(uid)
+        if ct.done and ct.exc is None and uid in self.limit_from:
+            # the report ends the start-up limit; a run-time limit, if any, starts now
+            lim = self.tasks[uid].get('timeout')
+            if lim:
+                self.limit_from[uid] = [self.baton.now, float(lim)]
+            else:
+                self.limit_from.pop(uid)
 
     def may_exit(self, p):
         return not (self.hold_exit and p.spawner is not None and not p.spawner.done)
@@ -700,6 +720,16 @@ class ExecSim(object):
             fp = fp2
             if same >= 2:
                 if not exited:
+                    # everything has settled.  A process which is still running although its
+                    # limit passed well before this point was not stopped: nothing would stop it
+                    cand = [(p, self.baton.now - self.limit_from[p.uid][0] - self.limit_from[p.uid][1])
+                            for p in self.procs if p.returncode is None and p.uid in self.limit_from]
+                    cand = [(p, over) for p, over in cand if over > 5.0]
+                    if cand:
+                        for _ in range(4):
+                            self._round()
+                        self.overdue = [(p.uid, over) for p, over in cand if p.returncode is None
+                                        and not p.killed]
                     for p in self.procs:
                         if p.returncode is None and self.may_exit(p):
                             p.returncode = self.tasks[p.uid].get('exit', 0)
@@ -818,6 +848,11 @@ class ExecSim(object):
                     self.bad('C07', 'failed_without_reason', uid)
                 if not spec.get('fault'):
                     self.bad('C07', 'failed_without_fault', '%s: %s' % (uid, t.get('exception')))
+        # a run-time / start-up limit is enforced
+        for uid, over in self.overdue:
+            self.bad('C07', 'left_behind:limit_passed_and_still_running',
+                     '%s: still running %.1fs after its limit passed, with all executor activities '
+                     'idle' % (uid, over))
         # nothing left in the ownership set
         left = getattr(self.comp, '_tasks', None)
         if isinstance(left, dict):
